@@ -577,6 +577,13 @@ def engine_submitmt(tier, seed):
         res['errors'].append('SubmitMT: the off-by-one deviation no longer violates any invariant (vacuous model?)')
     r['ok'] = True
     res['tlc'].append(r)
+    cfg = write_cfg('submitmt_dev2', SUBMITMT_CFG % dict(models[2], dev='{"StaleTailRecheck"}'))
+    r = run_tlc('submitmt_dev2', 'MC_SubmitMT', cfg, timeout=600)
+    r['purpose'] = 'sanity: deviation StaleTailRecheck (locked check against the tail loaded before the lock) must violate an invariant'
+    if not r['violated']:
+        res['errors'].append('SubmitMT: the stale-tail deviation no longer violates any invariant (vacuous model?)')
+    r['ok'] = True
+    res['tlc'].append(r)
     # 2. The real code under every schedule with <= 2 preemptions.
     runs = [dict(threads=2, adds=2, sqn=1, sq_init=0, mode='sqpoll', pre=2, trace=True),
             dict(threads=2, adds=2, sqn=1, sq_init=0xFFFFFFFF, mode='sqpoll', pre=2),
